@@ -106,7 +106,8 @@ Call(f, xs) ==
       b == IF Len(xs) >= 2 THEN xs[2] ELSE NullV
       c == IF Len(xs) >= 3 THEN xs[3] ELSE NullV IN
   IF \E i \in 1..Len(xs) : Bad(xs[i]) THEN ErrV
-  ELSE CASE f = "abs"    -> IF IsRat(a) THEN Rat(Abs(a.n), a.d) ELSE ErrV
+  ELSE CASE f = "vpark"  -> a          \* the driver's user function: the identity, after yielding the processor (evaluations of concurrent callers overlap)
+         [] f = "abs"    -> IF IsRat(a) THEN Rat(Abs(a.n), a.d) ELSE ErrV
          [] f = "floor"  -> IF IsRat(a) THEN Rat(Floor(a), 1) ELSE ErrV
          [] f \in {"ceil", "ceiling"} -> IF IsRat(a) THEN Rat(Ceil(a), 1) ELSE ErrV
          [] f = "round"  -> IF ~IsRat(a) THEN ErrV
